@@ -3,6 +3,9 @@ import GoLevel.Proofs.LocksWitness
 import GoLevel.Proofs.LocksOrphanEh
 import GoLevel.Proofs.LocksOrphanTx
 import GoLevel.Proofs.LocksCloseWait
+import GoLevel.Proofs.LocksRO
+import GoLevel.Proofs.LocksEnabled
+import GoLevel.Proofs.LocksRuns
 /-!
 # Property C09 — every call returns; a failing call releases what it acquired; the DB recovers
 
@@ -19,21 +22,35 @@ the two compaction goroutines with `compactionTransact`'s retry loop and `compac
 `Step cfg true`, all others `Step cfg false`.  `Get` and iterator steps take none of these resources and are
 not threads of the model.
 
-**What is proved about the current code.**  The model is parametrised by `Cfg`, one flag per return path that
-could leave a resource held.  `codeCfg` takes the four flags from `Gen/Consts.lean`, which is regenerated
-from the Go AST on every run.  `code_three_fixed` (a `decide`) states that the leaks of `Transaction.Commit`,
-`OpenTransaction` and the large-batch path of `DB.Write` (D5–D7 of the design document) are closed in the
-source — un-fixing any of them breaks this file.  `released_on_return`, `progress`, `recovers_after_faults`
-and `close_returns` are proved for every configuration with these three flags set, for every reachable state
-if the fourth flag is set too, and otherwise for every state reachable in a run in which no thread executes
-`SetReadOnly` (`Covered`); `code_…` are the instances at `codeCfg`, `repaired_…` those at `Cfg.repaired`.
+**The error goroutine.**  `compactionError` is modelled case by case (`Model/CompErr.lean`): `Cfg.m` has one flag
+per `select` case and `switch` case of the function, `codeCfg.m` takes them from `Gen/Consts.lean`, which
+`tools/extract` regenerates from the Go AST on every run, and `code_comperr_machine` (a `decide`) states that the
+source has every case the proofs rely on.  `SetReadOnly` is modelled as coded now: it takes the token and sets
+`compWriteLocking`, posts `ErrReadOnly` and sets `compReadOnly` (consulted by `tCompaction`), and on `closeC`
+takes a token out of `writeLockC` without blocking.  Compactions end with `nil`, a transient error (retry loop)
+or a corruption (`compactionExitTransact`).
 
-**What is not**: `SetReadOnly` racing with `Close` (found while modelling, not fixed in the source:
-`Gen.lkSetReadOnlyReleasesOnClose = false`).  `known_finding_setreadonly_close` is the explicit witness at
-`codeCfg`: `SetReadOnly` returns `ErrClosed` with the token in `writeLockC`, and `Close` blocks for ever.
-The other leak theorems (`leak_commit`, `leak_opentx`, `leak_largebatch`, stated for `Cfg.asIs`) show what
-each of the three fixes prevents: an explicit run and an invariant proving that the resource is never
-released afterwards and which later calls therefore never complete.
+**What is proved about the current code** (`codeCfg`; `code_all_fixed`: it is `Cfg.repaired`), for every run —
+`SetReadOnly` at any point, also during the retry loop of a failing compaction and concurrently with `Close`,
+storage failures and corruption errors anywhere: `code_all_progress`, `code_all_recovers_after_faults`,
+`code_all_close_returns`, `code_all_locks_have_owners` (every held lock has an owner that can move),
+`setReadOnly_takes_effect` (once `SetReadOnly` returned nil every write-side call fails at its first `select`
+with `ErrReadOnly`, nothing blocks, `Close` returns), `persistent_error_fails_fast`.  `hang_without_…` /
+`write_succeeds_without_…`: for each `select` case of the machine whose removal breaks one of these, the run
+that hangs (a `decide`d deadlock), in particular the `err == ErrReadOnly` case of `haserr`.
+
+**What is not**: the *exact* accounting of the write-lock token (`ReleasedOnReturn`).  It holds while the DB is
+open, in runs without corruption errors and in runs without `SetReadOnly` (`released_on_return_partial`), but not
+in general (`write_lock_lost`, `released_on_return_full_refuted`): both take-backs of `compWriteLocking` are
+blind.  If a compaction reports a corruption while a `SetReadOnly` is between its two `select`s, a following
+`Close` lets `compactionError` (in `hasperr`, reading the `compWriteLocking` that `SetReadOnly` set) take
+`SetReadOnly`'s token, `Close` acquires the lock, and `SetReadOnly`'s `closeC` arm takes *`Close`'s* token out:
+`Close` goes on tearing the DB down without the write lock, and a writer that was waiting in its `select` can
+acquire it.  Nothing blocks in this run (the liveness theorems cover it); what is lost is mutual exclusion.
+
+The leak theorems (`leak_commit`, `leak_opentx`, `leak_largebatch`, `leak_setreadonly`, stated for `Cfg.asIs`)
+show what each of the four repairs prevents: an explicit run and an invariant proving that the resource is
+never released afterwards and which later calls therefore never complete.
 
 Liveness is termination: `measure` strictly decreases on every fault-free step, so every schedule, fair or
 not, that contains finitely many storage failures is finite, and by `progress` it can only end when no call
@@ -54,11 +71,15 @@ theorem code_three_fixed :
     codeCfg.commitUnlocksOnError = true ∧ codeCfg.openTxReleasesOnError = true ∧
     codeCfg.largeBatchDiscardsOnCommitError = true := by decide
 
+/-- **the tie of the machine**: `compactionError` in the source has every `select` case and `switch` case of
+`CompErr.MCfg.asCoded`, and nothing else (regenerated facts `Gen.ce…`) -/
+theorem code_comperr_machine : codeCfg.m = CompErr.MCfg.asCoded := by decide
+
 theorem code_covered (s : St) (hr : ReachableNoSR codeCfg s) : Covered codeCfg s :=
-  ⟨code_three_fixed, Or.inr hr⟩
+  ⟨code_three_fixed, code_comperr_machine, Or.inr hr⟩
 
 theorem repaired_covered (s : St) (hr : Reachable Cfg.repaired s) : Covered Cfg.repaired s :=
-  ⟨⟨rfl, rfl, rfl⟩, Or.inl ⟨rfl, hr⟩⟩
+  ⟨⟨rfl, rfl, rfl⟩, rfl, Or.inl ⟨rfl, Or.inl hr⟩⟩
 
 /-! ## the statements -/
 
@@ -68,6 +89,12 @@ def ReleasedOnReturn (s : St) : Prop :=
   (tot clkW s.ws + bgClk s.mc + bgClk s.tc = b2n s.clk) ∧
   (tot trlkW s.ws = b2n s.trlk) ∧
   (∀ ok, tokW (.ret ok) = 0 ∧ clkW (.ret ok) = 0 ∧ trlkW (.ret ok) = 0)
+
+/-- `compCommitLk` and `tr.lk` have exactly their owners, and a token in `writeLockC` has an owner -/
+def LocksHaveOwners (s : St) : Prop :=
+  (b2n s.tok ≤ tot tokW s.ws + b2n s.trOpen + b2n s.ehTok + b2n s.closeTok) ∧
+  (tot clkW s.ws + bgClk s.mc + bgClk s.tc = b2n s.clk) ∧
+  (tot trlkW s.ws = b2n s.trlk)
 
 /-- while a call is pending a fault-free step is enabled, or a user transaction is open -/
 def Progress (cfg : Cfg) (s : St) : Prop :=
@@ -92,16 +119,34 @@ def CloseReturns (cfg : Cfg) (s : St) : Prop :=
 
 /-! ## the covered configurations -/
 
-/-- **Every held resource has exactly its owners**: the token is in `writeLockC` iff exactly one of — a
-thread between acquiring and releasing it, the open transaction, `compWriteLocking`, `Close` — holds it;
-likewise `compCommitLk` (a committing `Commit` or compaction) and `tr.lk`.  A thread that has returned
-(`ret`) or not started (`idle`) is never an owner: whatever a call acquired is released when it returns,
-whatever its outcome — except the token of a successful `OpenTransaction`, which passes to the transaction
-(`trOpen`) and is released by `Commit`(ok) / `Discard` / `Close` (`St.setDone`), and the token `SetReadOnly`
-leaves to `compactionError` (`ehTok`), released on `Close`. -/
-theorem released_on_return (cfg : Cfg) (s : St) (hc : Covered cfg s) : ReleasedOnReturn s :=
+/-- **Every held resource has exactly its owners** — while the DB is open, and throughout runs without
+corruption errors or without `SetReadOnly`: the token is in `writeLockC` iff exactly one of — a thread between
+acquiring and releasing it, the open transaction, `compWriteLocking`, `Close` — holds it; likewise
+`compCommitLk` (a committing `Commit` or compaction) and `tr.lk`.  A thread that has returned (`ret`, `retE`)
+or not started (`idle`) is never an owner: whatever a call acquired is released when it returns, whatever its
+outcome — except the token of a successful `OpenTransaction`, which passes to the transaction (`trOpen`) and is
+released by `Commit`(ok) / `Discard` / `Close` (`St.setDone`), and the token `SetReadOnly` leaves to
+`compactionError` (`ehTok`), released on `Close`.  (`_partial`: see `released_on_return_full`.) -/
+theorem released_on_return_partial (cfg : Cfg) (s : St) (hc : Covered cfg s)
+    (hx : s.closed = false ∨ (cfg.setReadOnlyReleasesOnClose = true ∧ ReachableNC cfg s) ∨ ReachableNoSR cfg s) :
+    ReleasedOnReturn s := by
+  have g := (covered_goodE cfg s hc)
+  have ht : TokE s := by
+    rcases hx with hx | ⟨h4, hx⟩ | hx
+    · exact g.2 hx
+    · exact (exact_noCorr cfg hc.1 hc.2.1 h4 s hx).1
+    · exact exact_noSR cfg hc.1 hc.2.1 s hx
+  exact ⟨ht, g.1.1.r.clkI, g.1.1.r.trlkI, fun _ => ⟨rfl, rfl, rfl⟩⟩
+
+/-- the full statement: the exact accounting in every covered state -/
+def released_on_return_full : Prop := ∀ (cfg : Cfg) (s : St), Covered cfg s → ReleasedOnReturn s
+
+/-- **Every held lock has an owner**, in every covered state: `compCommitLk` and `tr.lk` exactly, and a token in
+`writeLockC` belongs to a thread between acquiring and releasing it, to the open transaction, to
+`compWriteLocking` or to `Close`. -/
+theorem locks_have_owners (cfg : Cfg) (s : St) (hc : Covered cfg s) : LocksHaveOwners s :=
   have g := (covered_good cfg s hc).1.r
-  ⟨g.tokI, g.clkI, g.trlkI, fun _ => ⟨rfl, rfl, rfl⟩⟩
+  ⟨g.tokI, g.clkI, g.trlkI⟩
 
 /-- corollary: when no call is in progress, no transaction is open and the DB is neither read-only nor
 closed, all three locks are free -/
@@ -109,9 +154,9 @@ theorem nothing_held_when_quiet (cfg : Cfg) (s : St) (hr : Covered cfg s)
     (hq : ∀ (i : Nat) (p : Pc), s.ws[i]? = some p → pending p = false) (ht : s.trOpen = false)
     (he : s.ehTok = false) (hc : s.closeTok = false) (hm : bgClk s.mc = 0) (htc : bgClk s.tc = 0) :
     s.tok = false ∧ s.clk = false ∧ s.trlk = false := by
-  obtain ⟨h1, h2, h3, _⟩ := released_on_return cfg s hr
-  have z : ∀ (f : Pc → Nat), f .idle = 0 → (∀ ok, f (.ret ok) = 0) → tot f s.ws = 0 := by
-    intro f h0 hret
+  obtain ⟨h1, h2, h3⟩ := locks_have_owners cfg s hr
+  have z : ∀ (f : Pc → Nat), f .idle = 0 → (∀ ok, f (.ret ok) = 0) → (∀ e, f (.retE e) = 0) → tot f s.ws = 0 := by
+    intro f h0 hret hrete
     cases hz : tot f s.ws with
     | zero => rfl
     | succ n =>
@@ -120,17 +165,18 @@ theorem nothing_held_when_quiet (cfg : Cfg) (s : St) (hr : Covered cfg s)
       cases p with
       | idle => rw [h0] at hp; omega
       | ret ok => rw [hret ok] at hp; omega
+      | retE e => rw [hrete e] at hp; omega
       | _ => simp [pending] at hpp
   have bz : ∀ b : Bool, 0 = b2n b → b = false := by intro b; cases b <;> simp [b2n]
-  rw [z tokW rfl (fun _ => rfl), ht, he, hc] at h1
-  rw [z clkW rfl (fun _ => rfl), hm, htc] at h2
-  rw [z trlkW rfl (fun _ => rfl)] at h3
-  exact ⟨bz _ (by simpa using h1), bz _ (by simpa using h2), bz _ h3⟩
+  rw [z tokW rfl (fun _ => rfl) (fun _ => rfl), ht, he, hc] at h1
+  rw [z clkW rfl (fun _ => rfl) (fun _ => rfl), hm, htc] at h2
+  rw [z trlkW rfl (fun _ => rfl) (fun _ => rfl)] at h3
+  exact ⟨bz _ (by simp only [b2n_false] at h1; omega), bz _ (by simpa using h2), bz _ h3⟩
 
 /-- **No covered state is stuck while a call is pending**: some fault-free step is enabled — or the
 pending calls queue behind a transaction that the user holds open. -/
 theorem progress (cfg : Cfg) (s : St) (hc : Covered cfg s) : Progress cfg s :=
-  fun i p hi hp => Locks.progress s (covered_good cfg s hc).1 i p hi hp
+  fun i p hi hp => Locks.progress hc.2.1 s (covered_good cfg s hc).1 i p hi hp
 
 theorem covered_nf (cfg : Cfg) (s t : St) (hc : Covered cfg s) (h : StepsNF cfg s t) : Covered cfg t :=
   covered_steps cfg s t hc (stepsNF_steps h)
@@ -178,7 +224,7 @@ theorem close_returns (cfg : Cfg) (s : St) (hc : Covered cfg s) : CloseReturns c
 /-! ### the current source (`codeCfg`), runs without `SetReadOnly` -/
 
 theorem code_released_on_return (s : St) (hr : ReachableNoSR codeCfg s) : ReleasedOnReturn s :=
-  released_on_return codeCfg s (code_covered s hr)
+  released_on_return_partial codeCfg s (code_covered s hr) (Or.inr (Or.inr hr))
 theorem code_progress (s : St) (hr : ReachableNoSR codeCfg s) : Progress codeCfg s :=
   progress codeCfg s (code_covered s hr)
 theorem code_recovers_after_faults (s : St) (hr : ReachableNoSR codeCfg s) : RecoversAfterFaults codeCfg s :=
@@ -188,8 +234,9 @@ theorem code_close_returns (s : St) (hr : ReachableNoSR codeCfg s) : CloseReturn
 
 /-! ### all four fixes (`Cfg.repaired`), every run -/
 
-theorem repaired_released_on_return (s : St) (hr : Reachable Cfg.repaired s) : ReleasedOnReturn s :=
-  released_on_return Cfg.repaired s (repaired_covered s hr)
+theorem repaired_released_on_return_partial (s : St) (hr : Reachable Cfg.repaired s) (ho : s.closed = false) :
+    ReleasedOnReturn s :=
+  released_on_return_partial Cfg.repaired s (repaired_covered s hr) (Or.inl ho)
 theorem repaired_progress (s : St) (hr : Reachable Cfg.repaired s) : Progress Cfg.repaired s :=
   progress Cfg.repaired s (repaired_covered s hr)
 theorem repaired_recovers_after_faults (s : St) (hr : Reachable Cfg.repaired s) : RecoversAfterFaults Cfg.repaired s :=
@@ -205,12 +252,12 @@ example : Steps Cfg.repaired (init 2) { ws := [.ret false, .idle] } := by
   have h := h.step (Step.startOtx _ 0 rfl)
   have h := h.step (Step.selTok _ 0 (.otxSel false) (.otxBranch false) rfl rfl rfl)
   have h := h.step (Step.otxRotate _ 0 false rfl)
-  have h := h.step (Step.cwSendGo _ 0 false .otxRot1 false rfl rfl)
+  have h := h.step (Step.cwSendGo _ 0 false .otxRot1 false rfl rfl rfl)
   have h := h.step (Step.bgWorkOk _ false (some 0) rfl)
-  have h := h.step (Step.bgSetErr _ false (some 0) true false rfl (Or.inl rfl))
+  have h := h.step (Step.bgSetErr _ false (some 0) true false rfl rfl)
   have h := h.step (Step.bgLockClk _ false (some 0) rfl rfl)
   have h := h.step (Step.bgCommitOk _ false (some 0) rfl)
-  have h := h.step (Step.bgSetErr _ false (some 0) true true rfl (Or.inl rfl))
+  have h := h.step (Step.bgSetErr _ false (some 0) true true rfl rfl)
   have h := h.step (Step.bgAck _ false (some 0) rfl)
   have h := h.step (Step.otxNewMemFail _ 0 false rfl)
   have h := h.step (Step.otxFail _ 0 false rfl)
@@ -219,12 +266,12 @@ example : Steps Cfg.repaired (init 2) { ws := [.ret false, .idle] } := by
 /-- a `Close` racing with `SetReadOnly` completes -/
 example : Steps Cfg.repaired (init 2)
     { ws := [.ret false, .ret true], tok := true, closeTok := true, closed := true, eh := .exited,
-      mc := .exited, tc := .exited } := by
+      cwl := true, mc := .exited, tc := .exited } := by
   have h := Steps.refl (cfg := Cfg.repaired) (init 2)
   have h := h.step (Step.startSR _ 0 rfl rfl)
   have h := h.step (Step.selTok _ 0 .srSel .srSet rfl rfl rfl)
   have h := h.step (Step.startClose _ 1 rfl)
-  have h := h.step (Step.ehExit _ (by decide) rfl)
+  have h := h.step (Step.ehClose _ rfl rfl)
   have h := h.step (Step.srClosed _ 0 rfl rfl)
   have h := h.step (Step.clCheckTr _ 1 rfl)
   have h := h.step (Step.clAcq _ 1 rfl rfl)
@@ -233,7 +280,7 @@ example : Steps Cfg.repaired (init 2)
   have h := h.step (Step.clWait _ 1 rfl rfl rfl)
   exact h
 
-example : measure (init 3) = 186 := by decide
+example : measure (init 3) = 371 := by decide
 
 /-! ## what each fix prevents (`Cfg.asIs`), and the remaining known finding -/
 
@@ -256,8 +303,8 @@ theorem leak_opentx :
     | n + 2, hi => simp [otxLeakSt] at hi
   · intro t ht
     have h0 : TokOrphan otxLeakSt := by
-      refine ⟨rfl, by decide, rfl, rfl, rfl, by decide⟩
-    obtain ⟨h1, h2, _, _, h5, h6⟩ := steps_inv_of_step TokOrphan (step_tokOrphan Cfg.asIs) _ _ ht h0
+      refine ⟨rfl, by decide, rfl, rfl, rfl, by decide, by decide, rfl, by decide⟩
+    obtain ⟨h1, h2, _, _, h5, h6, _, _, _⟩ := steps_inv_of_step TokOrphan (step_tokOrphan Cfg.asIs) _ _ ht h0
     refine ⟨h1, h2, h5, ?_⟩
     intro i hi
     have := le_tot (fun p => if p = .clWait then 1 else 0) t.ws i _ hi
@@ -296,8 +343,8 @@ theorem leak_largebatch :
     | 1, hi => cases hi; rfl
     | n + 2, hi => simp [lgLeakSt] at hi
   · intro t ht hc
-    have h0 : TxOrphan lgLeakSt := Or.inr ⟨rfl, by decide, rfl, rfl, by decide⟩
-    rcases steps_inv_of_step TxOrphan (step_txOrphan Cfg.asIs) _ _ ht h0 with h | ⟨h1, h2, h3, h4, _⟩
+    have h0 : TxOrphan lgLeakSt := Or.inr ⟨rfl, by decide, rfl, rfl, by decide, by decide⟩
+    rcases steps_inv_of_step TxOrphan (step_txOrphan Cfg.asIs) _ _ ht h0 with h | ⟨h1, h2, h3, h4, _, _⟩
     · rw [hc] at h; cases h
     · exact ⟨h1, h2, h3, h4⟩
 
@@ -306,11 +353,12 @@ theorem leak_largebatch :
 releases the token only from `hasperr`), `SetReadOnly` takes the `closeC` arm of its second `select` and
 returns `ErrClosed`: the token stays in `writeLockC`, `Close` (thread 1) blocks in
 `db.writeLockC <- struct{}{}` for ever. -/
-theorem leak_setreadonly_of (cfg : Cfg) (hf : cfg.setReadOnlyReleasesOnClose = false) :
+theorem leak_setreadonly_of (cfg : Cfg) (hm : cfg.m = CompErr.MCfg.asCoded)
+    (hf : cfg.setReadOnlyReleasesOnClose = false) :
     ∃ s, Reachable cfg s ∧ s.ws[0]? = some (.ret false) ∧ s.ws[1]? = some .clAcq ∧
       ∀ t, Steps cfg s t →
         t.tok = true ∧ tot tokW t.ws = 0 ∧ t.closeTok = false ∧ ∀ (i : Nat), t.ws[i]? ≠ some .clWait := by
-  refine ⟨srLeakSt, ⟨2, srLeakRun cfg hf⟩, rfl, rfl, ?_⟩
+  refine ⟨srLeakSt, ⟨2, srLeakRun cfg hm hf⟩, rfl, rfl, ?_⟩
   intro t ht
   have h0 : EhOrphan srLeakSt := ⟨rfl, by decide, rfl, rfl, rfl, rfl, by decide, by decide⟩
   obtain ⟨h1, h2, _, _, _, h6, h7, _⟩ := steps_inv_of_step EhOrphan (step_ehOrphan cfg) _ _ ht h0
@@ -323,7 +371,7 @@ theorem leak_setreadonly :
     ∃ s, Reachable Cfg.asIs s ∧ s.ws[0]? = some (.ret false) ∧ s.ws[1]? = some .clAcq ∧
       ∀ t, Steps Cfg.asIs s t →
         t.tok = true ∧ tot tokW t.ws = 0 ∧ t.closeTok = false ∧ ∀ (i : Nat), t.ws[i]? ≠ some .clWait :=
-  leak_setreadonly_of Cfg.asIs rfl
+  leak_setreadonly_of Cfg.asIs rfl rfl
 
 /-- **KNOWN FINDING, current source**: as long as the extractor reports that `SetReadOnly` does not give the
 token back on its `closeC` arm, the race is a run of the model of the current code: `SetReadOnly` has
@@ -332,40 +380,278 @@ theorem known_finding_setreadonly_close (hf : codeCfg.setReadOnlyReleasesOnClose
     ∃ s, Reachable codeCfg s ∧ s.ws[0]? = some (.ret false) ∧ s.ws[1]? = some .clAcq ∧
       ∀ t, Steps codeCfg s t →
         t.tok = true ∧ tot tokW t.ws = 0 ∧ t.closeTok = false ∧ ∀ (i : Nat), t.ws[i]? ≠ some .clWait :=
-  leak_setreadonly_of codeCfg hf
+  leak_setreadonly_of codeCfg code_comperr_machine hf
 
 /-- the accounting of `released_on_return` fails in the code as it is -/
-theorem asIs_not_released : ∃ s, Reachable Cfg.asIs s ∧ ¬ RInv s :=
-  ⟨otxLeakSt, ⟨2, otxLeakRun⟩, fun h => by have := h.tokI; revert this; decide⟩
+theorem asIs_not_released : ∃ s, Reachable Cfg.asIs s ∧ ¬ LocksHaveOwners s :=
+  ⟨otxLeakSt, ⟨2, otxLeakRun⟩, fun h => by have := h.1; revert this; decide⟩
 
-/-! ### the code as it is now: all four release facts hold (the SetReadOnly/Close leak was repaired too) -/
+/-! ### the code as it is now: all four release facts hold, the machine is as coded -/
 
-/-- regenerated tie: the four release facts read off the Go source are all true; un-fixing any of them
-in the source breaks this `decide` -/
+/-- regenerated tie: the four release facts read off the Go source are all true, `compactionError` has exactly the
+cases of `MCfg.asCoded`, `tCompaction` consults `compReadOnly`, `SetReadOnly` / `compactionTransact` talk to the
+machine as modelled; un-fixing any of them in the source breaks this `decide` -/
 theorem code_all_fixed : codeCfg = Cfg.repaired := by decide
 
 theorem code_covered_all (s : St) (hr : Reachable codeCfg s) : Covered codeCfg s :=
-  ⟨code_three_fixed, Or.inl ⟨by decide, hr⟩⟩
+  ⟨code_three_fixed, code_comperr_machine, Or.inl ⟨by decide, Or.inl hr⟩⟩
 
-/-- for EVERY reachable state of the code's configuration, runs with `SetReadOnly` included -/
-theorem code_all_released_on_return (s : St) (hr : Reachable codeCfg s) : ReleasedOnReturn s :=
-  released_on_return codeCfg s (code_covered_all s hr)
+theorem code_covered_nc (s : St) (hr : ReachableNC codeCfg s) : Covered codeCfg s :=
+  ⟨code_three_fixed, code_comperr_machine, Or.inl ⟨by decide, Or.inr hr⟩⟩
+
+/-- for EVERY reachable state of the code's configuration — `SetReadOnly` at any point (also while a
+compaction is in its transient-error retry loop, also concurrently with `Close`), storage failures and
+corruption errors anywhere -/
+theorem code_all_locks_have_owners (s : St) (hr : Reachable codeCfg s) : LocksHaveOwners s :=
+  locks_have_owners codeCfg s (code_covered_all s hr)
 theorem code_all_progress (s : St) (hr : Reachable codeCfg s) : Progress codeCfg s :=
   progress codeCfg s (code_covered_all s hr)
 theorem code_all_recovers_after_faults (s : St) (hr : Reachable codeCfg s) : RecoversAfterFaults codeCfg s :=
   recovers_after_faults codeCfg s (code_covered_all s hr)
 theorem code_all_close_returns (s : St) (hr : Reachable codeCfg s) : CloseReturns codeCfg s :=
   close_returns codeCfg s (code_covered_all s hr)
+/-- the exact accounting: while the DB is open … -/
+theorem code_all_released_on_return_partial (s : St) (hr : Reachable codeCfg s) (ho : s.closed = false) :
+    ReleasedOnReturn s :=
+  released_on_return_partial codeCfg s (code_covered_all s hr) (Or.inl ho)
+/-- … and, `Close` included, in runs without corruption errors -/
+theorem code_nocorrupt_released_on_return (s : St) (hr : ReachableNC codeCfg s) : ReleasedOnReturn s :=
+  released_on_return_partial codeCfg s (code_covered_nc s hr) (Or.inr (Or.inl ⟨by decide, hr⟩))
+
+/-! ## `SetReadOnly` takes effect; the persistent-error state fails fast -/
+
+/-- the `select` on `writeLockC` at the start of `Put` / `Delete` / `Write` (`putSel`), `OpenTransaction` and the
+large-batch `Write` (`otxSel`), `CompactRange` (`crSel`), `SetReadOnly` (`srSel`) -/
+def AtFirstSelect (p : Pc) : Prop := ∃ q, selNext p = some q
+
+/-- **`SetReadOnly` takes effect**, in every interleaving of the code's configuration.  In every reachable
+state in which `compReadOnly` is set — it is set by the step with which `SetReadOnly` returns nil, and never
+reset — :
+* while the DB is open, `compactionError` is in `hasperr` with `ErrReadOnly`, the write-lock token is in
+  `writeLockC`, no thread and no transaction owns it, and for every thread at the first `select` of a write-side
+  call — in particular every `Put`, `Delete`, `Write`, `OpenTransaction`, `CompactRange` started later — the
+  `compPerErrC` arm is enabled and yields `ErrReadOnly` (the call does not block), and no step moves the thread
+  anywhere else (it never gets the lock);
+* no call blocks (`Progress`), once failures stop every call completes (`RecoversAfterFaults`), `Close` returns
+  (`CloseReturns`).
+(After `Close` has closed `closeC` such a call returns `ErrReadOnly` or `ErrClosed` — or, if its `select` runs
+between the machine's give-back and `Close`'s acquire, takes the lock and writes: see the report.) -/
+theorem setReadOnly_takes_effect (s : St) (hr : Reachable codeCfg s) (hro : s.ro = true) :
+    (s.closed = false →
+      s.eh = .hasperr ∧ s.ehErr = .readonly ∧ s.tok = true ∧ tot tokW s.ws = 0 ∧ s.trOpen = false ∧
+      ∀ (i : Nat) (p : Pc), s.ws[i]? = some p → AtFirstSelect p →
+        (∃ t, Step codeCfg false s t ∧ t.ws[i]? = some (.retE .readonly)) ∧
+        (∀ f t, Step codeCfg f s t → t.ws[i]? = some p ∨ t.ws[i]? = some (.retE .readonly))) ∧
+    (∀ t, Steps codeCfg s t → t.ro = true) ∧
+    Progress codeCfg s ∧ RecoversAfterFaults codeCfg s ∧ CloseReturns codeCfg s := by
+  have hc := code_covered_all s hr
+  have g := covered_goodE codeCfg s hc
+  refine ⟨fun hcl => ?_, fun t ht => steps_ro codeCfg s t ht hro, progress codeCfg s hc,
+    recovers_after_faults codeCfg s hc, close_returns codeCfg s hc⟩
+  obtain ⟨herr, he⟩ := g.1.1.e.2.1 hro
+  have heh : s.eh = .hasperr := by
+    rcases he with he | he | he
+    · exact he
+    · have := g.1.1.a.2.2.2.1 he; rw [hcl] at this; cases this
+    · have := g.1.1.a.2.2.1 he; rw [hcl] at this; cases this
+  have hk : s.ehTok = true := g.1.1.e.2.2 hro hcl
+  have hE : tot tokW s.ws + b2n s.trOpen + b2n s.ehTok + b2n s.closeTok = b2n s.tok := g.2 hcl
+  have c4 := b2n_le s.tok
+  rw [hk] at hE; simp only [b2n_true] at hE
+  have htok : s.tok = true := by cases h : s.tok <;> simp_all
+  have htr : s.trOpen = false := by cases h : s.trOpen <;> simp_all <;> omega
+  refine ⟨heh, herr, htok, by omega, htr, fun i p hi ⟨q, hq⟩ => ⟨?_, fun f t hst => ?_⟩⟩
+  · refine ⟨_, Step.selPerErr s i p q hi hq (offPer_of code_comperr_machine heh), ?_⟩
+    have hlt : i < s.ws.length := by
+      rcases Nat.lt_or_ge i s.ws.length with h | h
+      · exact h
+      · rw [List.getElem?_eq_none h] at hi; cases hi
+    simp [herr, hlt]
+  · have := sel_thread_step codeCfg s t f hst i p q hi hq htok hcl
+    rwa [herr] at this
+
+/-- **The persistent-error state fails fast**, in every interleaving of the code's configuration.  In every
+reachable state in which `compactionError` is in `hasperr` (it got a corruption error or `ErrReadOnly`):
+* every thread at a blocking point of a write-side call has its error arm enabled: at the first `select` the
+  `compPerErrC` arm (the call returns the machine's error), while sending a compaction command or waiting for its
+  ack the `compErrC` arm, in `SetReadOnly`'s second `select` the `compPerErrC` arm;
+* the state and its error last until `Close`;
+* once the machine has put its token into `writeLockC` (`ehTok`; it does so as soon as the lock is free), it
+  stays there until `Close`, and while the DB is open no thread gets the lock: a thread at a first `select`
+  moves only by returning the machine's error. -/
+theorem persistent_error_fails_fast (s : St) (hr : Reachable codeCfg s) (he : s.eh = .hasperr) :
+    (∀ (i : Nat) (p : Pc), s.ws[i]? = some p →
+      (∀ q, selNext p = some q → ∃ t, Step codeCfg false s t ∧ t.ws[i]? = some (.retE s.ehErr)) ∧
+      (∀ b site lg, p = .cwSend b site lg → ∃ t, Step codeCfg false s t ∧ t.ws[i]? = some (onErr site lg)) ∧
+      (∀ b site lg, p = .cwAck b site lg → ∃ t, Step codeCfg false s t ∧ t.ws[i]? = some (onErr site lg)) ∧
+      (p = .srSet → ∃ t, Step codeCfg false s t ∧ t.ws[i]? = some (.retE s.ehErr))) ∧
+    (∀ f t, Step codeCfg f s t → (t.eh = .hasperr ∧ t.ehErr = s.ehErr) ∨ s.closed = true) ∧
+    (s.ehTok = true → s.closed = false →
+      s.tok = true ∧ tot tokW s.ws = 0 ∧
+      (∀ f t, Step codeCfg f s t → t.ehTok = true) ∧
+      ∀ (i : Nat) (p : Pc), s.ws[i]? = some p → AtFirstSelect p →
+        ∀ f t, Step codeCfg f s t → t.ws[i]? = some p ∨ t.ws[i]? = some (.retE s.ehErr)) := by
+  have hc := code_covered_all s hr
+  have g := covered_goodE codeCfg s hc
+  have hm := code_comperr_machine
+  have hset : ∀ (i : Nat) (p q : Pc), s.ws[i]? = some p → (s.ws.set i q)[i]? = some q := by
+    intro i p q hi
+    have hlt : i < s.ws.length := by
+      rcases Nat.lt_or_ge i s.ws.length with h | h
+      · exact h
+      · rw [List.getElem?_eq_none h] at hi; cases hi
+    simp [hlt]
+  refine ⟨fun i p hi => ⟨?_, ?_, ?_, ?_⟩, fun f t hst => step_hasperr codeCfg s t f hst he, fun hk hcl => ?_⟩
+  · intro q hq
+    exact ⟨_, Step.selPerErr s i p q hi hq (offPer_of hm he), hset i p _ hi⟩
+  · rintro b site lg rfl
+    exact ⟨_, Step.cwSendErr s i b site lg hi (Or.inl (offErr_of hm he)), hset i _ _ hi⟩
+  · rintro b site lg rfl
+    refine ⟨_, Step.cwAckErr s i b site lg hi (Or.inl (offErr_of hm he)), ?_⟩
+    cases b <;> simpa [St.setBg] using hset i _ _ hi
+  · rintro rfl
+    exact ⟨_, Step.srPerErr s i hi (offPer_of hm he), hset i _ _ hi⟩
+  · have hE : tot tokW s.ws + b2n s.trOpen + b2n s.ehTok + b2n s.closeTok = b2n s.tok := g.2 hcl
+    have c4 := b2n_le s.tok
+    rw [hk] at hE; simp only [b2n_true] at hE
+    have htok : s.tok = true := by cases h : s.tok <;> simp_all
+    exact ⟨htok, by omega, fun f t hst => step_hasperr_locked codeCfg s t f hst he hk hcl,
+      fun i p hi ⟨q, hq⟩ f t hst => sel_thread_step codeCfg s t f hst i p q hi hq htok hcl⟩
+
+/-! ### non-vacuity -/
+
+/-- `SetReadOnly` arrives while a table compaction is in the retry loop after a transient error: it returns nil,
+the retry completes (reporting through `compPerErrC`), `tCompaction` parks, a `Close` returns -/
+example : Reachable Cfg.repaired stRetryRO ∧ stRetryRO.ws = [.ret false, .ret true, .ret true] := ⟨⟨3, runRetryRO⟩, rfl⟩
+
+/-- after `SetReadOnly` returned nil a `Put` is at its `select`: the state of `setReadOnly_takes_effect` -/
+example : Reachable Cfg.repaired (stRO .putSel) ∧ (stRO .putSel).ro = true ∧ (stRO .putSel).closed = false ∧
+    AtFirstSelect .putSel :=
+  ⟨⟨2, (runRO Cfg.repaired rfl rfl).step (Step.startPut _ 1 rfl)⟩, rfl, rfl, ⟨_, rfl⟩⟩
+
+/-- a corruption puts the machine into `hasperr`; it then takes the write lock: the state of the last part of
+`persistent_error_fails_fast` -/
+example : Reachable Cfg.repaired (stCorrupt .idle true |> fun s => { s with ehTok := true, cwl := true }) :=
+  ⟨2, (runCorrupt Cfg.repaired rfl rfl rfl).step (Step.ehAcquire _ rfl rfl)⟩
+
+/-! ## every `select` case of the machine that these theorems need: the run that hangs without it
+
+Each configuration is the code's with one case of `compactionError` removed; the final state of the run has a
+call pending and no successor at all (`canStep … = false` is `decide`d, `stuck_of_canStep`): a deadlock. -/
+
+/-- a call is pending in `s`, and `s` has no successor, with or without storage failures -/
+def Deadlock (cfg : Cfg) (s : St) : Prop :=
+  (∃ (i : Nat) (p : Pc), s.ws[i]? = some p ∧ pending p = true) ∧ ¬ ∃ f t, Step cfg f s t
+
+/-- **`haserr` without `err == ErrReadOnly`** (the seeded change): `SetReadOnly` called during the retry loop of a
+compaction that failed with a transient error returns nil, the machine stays in `haserr` and goes back to
+`noerr` when the retry succeeds; the token stays in `writeLockC`, nobody offers `compPerErrC`: a later `Put`
+blocks for ever. -/
+theorem hang_without_haserr_readonly_case :
+    ∃ s, Reachable cfgNoHaserrRO s ∧ s.ws[1]? = some (.ret true) ∧ s.ws[2]? = some .putSel ∧ Deadlock cfgNoHaserrRO s :=
+  ⟨_, ⟨3, runNoHaserrRO_put⟩, rfl, rfl, ⟨2, _, rfl, rfl⟩, stuck_of_canStep _ _ (by decide)⟩
+
+/-- … and so does a later `Close`, in `db.writeLockC <- struct{}{}` -/
+theorem close_hangs_without_haserr_readonly_case :
+    ∃ s, Reachable cfgNoHaserrRO s ∧ s.ws[2]? = some .clAcq ∧ Deadlock cfgNoHaserrRO s :=
+  ⟨_, ⟨3, runNoHaserrRO_close⟩, rfl, ⟨2, _, rfl, rfl⟩, stuck_of_canStep _ _ (by decide)⟩
+
+/-- **`noerr` without `err == ErrReadOnly`**: `SetReadOnly` returns nil with the machine in `haserr`; a later
+`Put` blocks for ever. -/
+theorem hang_without_noerr_readonly_case :
+    ∃ s, Reachable cfgNoNoerrRO s ∧ s.ws[0]? = some (.ret true) ∧ s.ws[1]? = some .putSel ∧ Deadlock cfgNoNoerrRO s :=
+  ⟨_, ⟨2, runNoNoerrRO⟩, rfl, rfl, ⟨1, _, rfl, rfl⟩, stuck_of_canStep _ _ (by decide)⟩
+
+/-- **`noerr` without `case err = <-db.compErrSetC`**: the first compaction blocks in `compactionTransact`'s
+`select`, `CompactRange` waits for its ack for ever. -/
+theorem hang_without_noerr_recv :
+    ∃ s, Reachable cfgNoNoerrRecv s ∧ s.ws[0]? = some (.cwAck true .crRange false) ∧ Deadlock cfgNoNoerrRecv s :=
+  ⟨_, ⟨1, runNoNoerrRecv⟩, rfl, ⟨0, _, rfl, rfl⟩, stuck_of_canStep _ _ (by decide)⟩
+
+/-- **`haserr` without `case err = <-db.compErrSetC`**: after a transient error the retry cannot report its
+success; `SetReadOnly` holds the token and cannot post `ErrReadOnly`: it blocks for ever (and with it every
+writer). -/
+theorem hang_without_haserr_recv :
+    ∃ s, Reachable cfgNoHaserrRecv s ∧ s.ws[1]? = some .srSet ∧ Deadlock cfgNoHaserrRecv s :=
+  ⟨_, ⟨2, runNoHaserrRecv⟩, rfl, ⟨1, _, rfl, rfl⟩, stuck_of_canStep _ _ (by decide)⟩
+
+/-- **`hasperr` without `case db.compPerErrC <- err`**: after `SetReadOnly` returned nil a `Put` blocks for ever. -/
+theorem hang_without_hasperr_compPerErrC :
+    ∃ s, Reachable cfgNoPerErr s ∧ s.ws[0]? = some (.ret true) ∧ s.ws[1]? = some .putSel ∧ Deadlock cfgNoPerErr s :=
+  ⟨_, ⟨2, runNoPerErr⟩, rfl, rfl, ⟨1, _, rfl, rfl⟩, stuck_of_canStep _ _ (by decide)⟩
+
+/-- **`hasperr` without `case db.compErrC <- err`**: a `CompactRange` that wants to send its command while
+`tCompaction` is busy, when `SetReadOnly` makes `tCompaction` park, blocks for ever. -/
+theorem hang_without_hasperr_compErrC :
+    ∃ s, Reachable cfgNoHasperrErr s ∧ s.ws[1]? = some (.cwSend true .crRange false) ∧ Deadlock cfgNoHasperrErr s :=
+  ⟨_, ⟨3, runNoHasperrErr⟩, rfl, ⟨1, _, rfl, rfl⟩, stuck_of_canStep _ _ (by decide)⟩
+
+/-- **`hasperr` without `case <-db.closeC`**: after `SetReadOnly`, `Close` blocks for ever in
+`db.writeLockC <- struct{}{}`. -/
+theorem hang_without_hasperr_closeC :
+    ∃ s, Reachable cfgNoHasperrClose s ∧ s.ws[1]? = some .clAcq ∧ Deadlock cfgNoHasperrClose s :=
+  ⟨_, ⟨2, runROClose cfgNoHasperrClose rfl rfl⟩, rfl, ⟨1, _, rfl, rfl⟩, stuck_of_canStep _ _ (by decide)⟩
+
+/-- **`hasperr` whose `closeC` case does not give the token back**: the same. -/
+theorem hang_without_hasperr_giveback :
+    ∃ s, Reachable cfgNoGiveBack s ∧ s.ws[1]? = some .clAcq ∧ Deadlock cfgNoGiveBack s :=
+  ⟨_, ⟨2, runNoGiveBack⟩, rfl, ⟨1, _, rfl, rfl⟩, stuck_of_canStep _ _ (by decide)⟩
+
+/-- **`hasperr` without `case db.writeLockC <- struct{}{}`** breaks `persistent_error_fails_fast`, not liveness:
+after a corruption the machine is in `hasperr`, it has no step of its own left (it never takes the lock), and a
+`Put` started afterwards succeeds. -/
+theorem write_succeeds_without_hasperr_lock :
+    ∃ s t, Reachable cfgNoLock s ∧ s.eh = .hasperr ∧ s.ehErr = .corrupt ∧ s.ws[1]? = some .idle ∧
+      ehEn cfgNoLock s = false ∧ Steps cfgNoLock s t ∧ t.ws[1]? = some (.ret true) :=
+  ⟨_, _, ⟨2, runCorrupt cfgNoLock rfl rfl rfl⟩, rfl, rfl, rfl, by decide, runNoLock_put, rfl⟩
+
+/-! ## the write lock can be lost: the exact accounting fails after `Close` has begun -/
+
+/-- **FINDING, current source**: a compaction reports a corruption while `SetReadOnly` is between its two
+`select`s, then `Close`: `compactionError` (in `hasperr`, reading the `compWriteLocking` that `SetReadOnly` set)
+takes `SetReadOnly`'s token out on `closeC`, `Close` acquires the lock, `SetReadOnly`'s `closeC` arm takes
+`Close`'s token out.  In the reachable state `s`, `Close` (thread 2) is in `db.closeW.Wait()` owning the lock
+(`closeTok`), and `writeLockC` is empty; a `Put` (thread 3) that had passed `db.ok()` before `Close` takes the
+`writeLockC` arm of its `select` and is inside `writeLocked` (state `t`) while `Close` goes on to close the journal. -/
+theorem write_lock_lost :
+    ∃ s t, Reachable Cfg.repaired s ∧ s.ws[2]? = some .clWait ∧ s.closeTok = true ∧ s.tok = false ∧
+      ¬ ReleasedOnReturn s ∧ Step Cfg.repaired false s t ∧ t.ws[3]? = some .putFlush ∧ t.closeTok = true :=
+  ⟨_, _, ⟨4, runLost⟩, rfl, rfl, rfl, fun h => by have := h.1; revert this; decide, stepLost, rfl, rfl⟩
+
+/-- **Finding (model level), current source**: giving the token back on `closeC` lets a writer through.
+`SetReadOnly` returned nil; a `Put` called afterwards passed `db.ok()` and reached its `select`; `Close` closed
+`closeC`, `compactionError` took its token back and exited; before `Close` acquires the lock the `Put`'s `select`
+has two ready arms, `writeLockC` and `closeC`: it may take the lock, write to the journal and the memdb of a
+read-only DB, and return nil (thread 1 below).  The same window exists after a corruption error. -/
+theorem readonly_write_slips_through_on_close :
+    ∃ s, Reachable Cfg.repaired s ∧ s.ro = true ∧ s.ws[0]? = some (.ret true) ∧ s.ws[1]? = some (.ret true) :=
+  ⟨_, ⟨3, runROWrite⟩, rfl, rfl, rfl⟩
+
+/-- the full statement of `released_on_return` is false for the code's configuration -/
+theorem released_on_return_full_refuted : ¬ released_on_return_full := by
+  intro h
+  obtain ⟨s, _, hr, _, _, _, hn, _⟩ := write_lock_lost
+  exact hn (h Cfg.repaired s (repaired_covered s hr))
 
 def theorems : List String :=
-  ["GoLevel.C09.code_three_fixed", "GoLevel.C09.code_all_fixed",
-   "GoLevel.C09.code_all_released_on_return", "GoLevel.C09.code_all_progress",
+  ["GoLevel.C09.code_three_fixed", "GoLevel.C09.code_comperr_machine", "GoLevel.C09.code_all_fixed",
+   "GoLevel.C09.code_all_locks_have_owners", "GoLevel.C09.code_all_progress",
    "GoLevel.C09.code_all_recovers_after_faults", "GoLevel.C09.code_all_close_returns",
-   "GoLevel.C09.released_on_return", "GoLevel.C09.nothing_held_when_quiet", "GoLevel.C09.progress",
+   "GoLevel.C09.code_all_released_on_return_partial", "GoLevel.C09.code_nocorrupt_released_on_return",
+   "GoLevel.C09.setReadOnly_takes_effect", "GoLevel.C09.persistent_error_fails_fast",
+   "GoLevel.C09.hang_without_haserr_readonly_case", "GoLevel.C09.close_hangs_without_haserr_readonly_case",
+   "GoLevel.C09.hang_without_noerr_readonly_case", "GoLevel.C09.hang_without_noerr_recv",
+   "GoLevel.C09.hang_without_haserr_recv", "GoLevel.C09.hang_without_hasperr_compPerErrC",
+   "GoLevel.C09.hang_without_hasperr_compErrC", "GoLevel.C09.hang_without_hasperr_closeC",
+   "GoLevel.C09.hang_without_hasperr_giveback", "GoLevel.C09.write_succeeds_without_hasperr_lock",
+   "GoLevel.C09.write_lock_lost", "GoLevel.C09.released_on_return_full_refuted",
+   "GoLevel.C09.readonly_write_slips_through_on_close",
+   "GoLevel.C09.released_on_return_partial", "GoLevel.C09.locks_have_owners",
+   "GoLevel.C09.nothing_held_when_quiet", "GoLevel.C09.progress",
    "GoLevel.C09.recovers_after_faults", "GoLevel.C09.close_returns",
    "GoLevel.C09.code_released_on_return", "GoLevel.C09.code_progress",
    "GoLevel.C09.code_recovers_after_faults", "GoLevel.C09.code_close_returns",
-   "GoLevel.C09.repaired_released_on_return", "GoLevel.C09.repaired_progress",
+   "GoLevel.C09.repaired_released_on_return_partial", "GoLevel.C09.repaired_progress",
    "GoLevel.C09.repaired_recovers_after_faults", "GoLevel.C09.repaired_close_returns",
    "GoLevel.C09.known_finding_setreadonly_close", "GoLevel.C09.leak_setreadonly_of",
    "GoLevel.C09.leak_opentx", "GoLevel.C09.leak_commit", "GoLevel.C09.leak_largebatch",
